@@ -166,6 +166,10 @@ class NamespaceMixin(object):
             ast = fullast
 
         if isinstance(ast, declast.Declaration):
+            if ast.name is None:
+                raise RuntimeError(
+                    "Missing name in declaration: '{}'".format(decl)
+                )
             if "typedef" in ast.storage:
                 node = self.add_typedef(decl, ast=ast, **kwargs)
             elif ast.params is None:
